@@ -31,7 +31,8 @@ LAB_ID = {"thickness": 1, "x": 2, "stk": 9}
 TYPES = ["Waves", "Images", "DiffractionPatterns", "PolarMeasurements", "RealSpaceLineProfiles", "MeasurementsEnsemble"]
 
 
-def build(typ, init_axes, lazy):
+def build(typ, init_axes, lazy, rich=False):
+    """rich: the axes carry fields that are not at their defaults (another axis class with a direction, tex labels, endpoint)"""
     import abtem
     from abtem.core import axes as A
     axes = []
@@ -39,7 +40,13 @@ def build(typ, init_axes, lazy):
     for a in init_axes:
         if a["kind"] == "ordinal":
             vals = tuple({1: 10.0, 2: 20.0, 3: 30.0, 7: 70.0}[v] for v in a["vals"])
-            axes.append(A.ThicknessAxis(values=vals))
+            if rich:
+                axes.append(A.NonLinearAxis(label="thickness", values=vals, units="nm", tex_label="$t_y$", tex_units="nm.", _ensemble_mean=True))
+            else:
+                axes.append(A.ThicknessAxis(values=vals))
+        elif rich:
+            axes.append(A.ScanAxis(label="x", offset=float(Fraction(*a["off"])), sampling=float(Fraction(*a["samp"])), units="nm", endpoint=False,
+                                   tex_label="$x_s$"))
         else:
             axes.append(A.ScanAxis(label="x", offset=float(Fraction(*a["off"])), sampling=float(Fraction(*a["samp"])), units="Å"))
         shape.append(a["n"])
@@ -83,7 +90,32 @@ def observe(obj, op, raised=False, numpy_equal=True):
         if a["n"] == -1:
             a["n"] = ens[d] if d < len(ens) else -1
     meta = [[LAB_ID[k], VAL_ID.get(v, 0)] for k, v in obj.metadata.items() if k in LAB_ID]
-    return {"op": op, "raised": raised, "axes": axes, "meta": sorted(meta), "shape": ens, "numpy_equal": bool(numpy_equal)}
+    return {"op": op, "raised": raised, "axes": axes, "meta": sorted(meta), "shape": ens, "numpy_equal": bool(numpy_equal), "operand_intact": True,
+            "extras_kept": True}
+
+
+def _extras(a):
+    import dataclasses
+    d = dataclasses.asdict(a)
+    for k in ("values", "offset", "sampling"):
+        d.pop(k, None)
+    return type(a).__name__, json.dumps(d, sort_keys=True, default=repr)
+
+
+def extras_kept(parent, child):
+    """every axis of the result that continues an axis of the operand (same class, same label) carries the operand's other fields
+    (units, tex labels, direction, endpoint, ensemble_mean flag, ...) unchanged"""
+    before = {(type(a).__name__, a.label): _extras(a) for a in parent.ensemble_axes_metadata}
+    for a in child.ensemble_axes_metadata:
+        k = (type(a).__name__, a.label)
+        if k in before and before[k] != _extras(a):
+            return False
+    return True
+
+
+def _snapshot(obj):
+    return (json.dumps(observe(obj, {"k": "snap"}), sort_keys=True), [_extras(a) for a in obj.ensemble_axes_metadata],
+            json.dumps({k: repr(v) for k, v in obj.metadata.items()}, sort_keys=True))
 
 
 def py_item(it):
@@ -182,8 +214,8 @@ def reference_raises(obj, op):
         return True
 
 
-def replay_hist(typ, lazy, hist):
-    obj = build(typ, hist[0]["axes"], lazy)
+def replay_hist(typ, lazy, hist, rich=False):
+    obj = build(typ, hist[0]["axes"], lazy, rich)
     trace = [observe(obj, {"k": "init"})]
     for step in hist[1:]:
         op = step["op"]
@@ -194,9 +226,14 @@ def replay_hist(typ, lazy, hist):
         if int(np.prod(obj.shape)) == 0:
             break         # an empty selection: no values left to compare, NumPy and dask themselves disagree on reductions      # ndarray (op) object dispatches to NumPy's broadcasting over the object, not to abTEM
         try:
+            snap, a_before = _snapshot(obj), arr_of(obj)
             new, expected = apply_op(obj, op)
             ok = close(arr_of(new), np.asarray(expected))
-            trace.append(observe(new, op, False, ok))
+            rec = observe(new, op, False, ok)
+            # the operand is still what it was (axes, metadata, values) - it can be used again
+            rec["operand_intact"] = bool(_snapshot(obj) == snap and np.array_equal(arr_of(obj), a_before, equal_nan=True))
+            rec["extras_kept"] = extras_kept(obj, new)
+            trace.append(rec)
             obj = new
         except Machinery:
             raise
@@ -244,7 +281,7 @@ def judge(ctx: Ctx, traces):
         if not ok:
             tg = tags_for(t, bad)
             ev = t[bad[0][0] - 1]
-            ctx.report(tg, {"typ": t[0].get("typ"), "lazy": t[0].get("lazy"), "hist": [{"op": e["op"]} for e in t[1:]],
+            ctx.report(tg, {"typ": t[0].get("typ"), "lazy": t[0].get("lazy"), "rich": t[0].get("rich", False), "hist": [{"op": e["op"]} for e in t[1:]],
                             "init_axes": t[0]["axes"], "bad": bad, "observed": ev},
                        f"{t[0].get('typ')} lazy={t[0].get('lazy')} op={json.dumps(ev['op'])[:160]}: {','.join(tg['clauses'])} {ev.get('exc', '')}")
 
@@ -252,14 +289,15 @@ def judge(ctx: Ctx, traces):
 def self_test(ctx: Ctx):
     o = lambda lab, vals: {"kind": "ordinal", "lab": lab, "n": len(vals), "vals": vals, "off": [0, 1], "samp": [1, 1]}
     li = lambda n, off, samp: {"kind": "linear", "lab": 2, "n": n, "vals": [], "off": off, "samp": samp}
-    init = {"op": {"k": "init"}, "raised": False, "axes": [o(1, [1, 2, 3]), li(4, [0, 1], [1, 2])], "meta": [], "shape": [3, 4], "numpy_equal": True}
+    init = {"op": {"k": "init"}, "raised": False, "axes": [o(1, [1, 2, 3]), li(4, [0, 1], [1, 2])], "meta": [], "shape": [3, 4], "numpy_equal": True, "operand_intact": True, "extras_kept": True}
     op = {"k": "index", "items": [{"t": "int", "i": -1}, {"t": "slice", "start": [1], "stop": [], "step": [2]}]}
-    good = [init, {"op": op, "raised": False, "axes": [li(2, [1, 2], [1, 1])], "meta": [[1, 3]], "shape": [2], "numpy_equal": True}]
+    good = [init, {"op": op, "raised": False, "axes": [li(2, [1, 2], [1, 1])], "meta": [[1, 3]], "shape": [2], "numpy_equal": True, "operand_intact": True, "extras_kept": True}]
     c1 = json.loads(json.dumps(good)); c1[1]["axes"] = [li(2, [0, 1], [1, 2])]          # offset/sampling not carried
     c2 = json.loads(json.dumps(good)); c2[1]["meta"] = []                               # item metadata lost
     c3 = json.loads(json.dumps(good)); c3[1]["numpy_equal"] = False
-    red = [init, {"op": {"k": "reduce", "fn": "sum", "axis": -1}, "raised": False, "axes": init["axes"], "meta": [], "shape": [3, 4], "numpy_equal": True}]
-    res = ctx.validate("ArrayOpsTrace", [good, c1, c2, c3, red], "ArrayOpsTrace.cfg")
+    red = [init, {"op": {"k": "reduce", "fn": "sum", "axis": -1}, "raised": False, "axes": init["axes"], "meta": [], "shape": [3, 4], "numpy_equal": True, "operand_intact": True, "extras_kept": True}]
+    c4 = json.loads(json.dumps(good)); c4[1]["operand_intact"] = False
+    res = ctx.validate("ArrayOpsTrace", [good, c1, c2, c3, red, c4], "ArrayOpsTrace.cfg")
     if not res[0][0] or any(r[0] for r in res[1:]):
         raise Machinery(f"ArrayOpsTrace self-test failed: {res}")
     ctx.notes["binding_selftest"] = {"good_accepted": True, "linear_axis_not_carried_rejected": res[1][1], "item_metadata_lost_rejected": res[2][1],
@@ -289,8 +327,9 @@ def run(ctx: Ctx):
         hist = json.loads(js)
         typ = TYPES[j % len(TYPES)]
         lazy = (j // len(TYPES)) % 2 == 1
-        t = replay_hist(typ, lazy, hist)
-        t[0]["typ"], t[0]["lazy"] = typ, lazy
+        rich = (j // (2 * len(TYPES))) % 2 == 1
+        t = replay_hist(typ, lazy, hist, rich)
+        t[0]["typ"], t[0]["lazy"], t[0]["rich"] = typ, lazy, rich
         traces.append(t)
         ctx.case((typ, lazy, js), nontrivial=len(t) > 1)
     for t in traces[:2]:
@@ -300,8 +339,8 @@ def run(ctx: Ctx):
 
 def replay(ctx: Ctx, case):
     hist = [{"op": {"k": "init"}, "axes": case["init_axes"]}] + case["hist"]
-    t = replay_hist(case["typ"], case["lazy"], hist)
-    t[0]["typ"], t[0]["lazy"] = case["typ"], case["lazy"]
+    t = replay_hist(case["typ"], case["lazy"], hist, bool(case.get("rich")))
+    t[0]["typ"], t[0]["lazy"], t[0]["rich"] = case["typ"], case["lazy"], bool(case.get("rich"))
     ctx.case("replay")
     ctx.sample(t)
     judge(ctx, [t])
